@@ -356,6 +356,18 @@ Definition ctx_flag (c : list (N * value)) (f : N) (ftbl : option (list (N * Z))
     end
   end.
 
+(* ContextMixin._choose_option: the value of the sibling field selects an option (an unhashable value raises) *)
+Definition optZ_eqb (a b : option Z) : bool :=
+  match a, b with Some x, Some y => Z.eqb x y | None, None => true | _, _ => false end.
+
+Definition ctx_key (c : list (N * value)) (f : N) : option (option Z) :=
+  match lookup f c with
+  | None => None
+  | Some (VInt z) => Some (Some z)
+  | Some (VList _) | Some (VDict _) => None
+  | Some _ => Some None
+  end.
+
 (* ---------- the grammar ---------- *)
 
 Inductive lenk := LPrefixed (ip : iprim) | LFixed (n : N) | LGreedy.
@@ -381,7 +393,14 @@ Inductive spec :=
 | SIfPresent (s : spec)
 | SLengthSwitch (cs : list (option N * spec))
 | SEnumSwitch (tbl : list (N * Z)) (strict : bool) (ip : iprim) (cs : list (Z * spec))
-| SOptFlagged (field : N) (ftbl : option (list (N * Z))) (mask : Z) (s : spec).
+| SOptFlagged (field : N) (ftbl : option (list (N * Z))) (mask : Z) (s : spec)
+(* ContextSwitch / ContextAdapter with the context function given as data: lookup of a sibling field; the
+   options are keyed by ints (enum members), None = the MISSING default *)
+| SCtxSwitch (field : N) (cs : list (option Z * spec))
+| SCtxAdapter (field : N) (opts : list (option Z * option sadapter)) (s : spec)
+(* FlagSwitch: an IntFlag prefix, then the payload of every choice whose member is a key of the dict;
+   choice = (member name, member value, spec) *)
+| SFlagSwitch (tbl : list (N * Z)) (ip : iprim) (cs : list (N * Z * spec)).
 
 Definition optional (s : spec) : bool :=      (* class attribute OPTIONAL *)
   match s with SOptPrefixed _ | SOptFlagged _ _ _ _ => true | _ => false end.
@@ -430,6 +449,28 @@ Fixpoint de_fields (fs : list (N * bool * (ctx -> bytes -> dres))) (skip : bool)
     | Some (v, r) =>
       de_fields fs' skip (if opt && skip && is_none v then acc else acc ++ [(n, v)]) r
     end
+  end.
+
+Fixpoint ser_choices (cs : list (N * (value -> option bytes))) (kvs : list (N * value)) : option bytes :=
+  match cs with
+  | [] => Some []
+  | (n, f) :: cs' =>
+    match lookup n kvs with
+    | Some x => match f x, ser_choices cs' kvs with Some b, Some r => Some (b ++ r) | _, _ => None end
+    | None => ser_choices cs' kvs
+    end
+  end.
+
+Fixpoint de_choices (cs : list (N * Z * (bytes -> dres))) (z : Z) (b : bytes) : option (list (N * value) * bytes) :=
+  match cs with
+  | [] => Some ([], b)
+  | (n, cz, f) :: cs' =>
+    if Z.eqb (Z.land z cz) 0 then de_choices cs' z b
+    else match f b with
+         | Some (x, r) =>
+           match de_choices cs' z r with Some (kvs, r') => Some ((n, x) :: kvs, r') | None => None end
+         | None => None
+         end
   end.
 
 Fixpoint ser_all (f : value -> option bytes) (vs : list value) : option bytes :=
@@ -494,6 +535,12 @@ Fixpoint find_choice {K A} (eqb : K -> K -> bool) (k : K) (l : list (K * A)) : o
   match l with
   | [] => None
   | (k', a) :: r => if eqb k k' then Some a else find_choice eqb k r
+  end.
+
+Definition ctx_pick {A} (k : option Z) (cs : list (option Z * A)) : option A :=
+  match (match k with Some z => find_choice optZ_eqb (Some z) cs | None => None end) with
+  | Some a => Some a
+  | None => find_choice optZ_eqb None cs
   end.
 
 Definition optN_eqb (a b : option N) : bool :=
@@ -620,6 +667,37 @@ Fixpoint ser (e : bool) (s : spec) (c : ctx) (v : value) {struct s} : option byt
     | None => None                                 (* KeyError / TypeError on the context lookup *)
     | Some z => if Z.eqb (Z.land z mask) 0 then Some [] else ser e s' c v
     end
+  | SCtxSwitch f cs =>
+    match ctx_key c f with
+    | None => None
+    | Some k => match ctx_pick k (map (fun cs' => (fst cs', ser e (snd cs') c)) cs) with
+                | Some g => g v
+                | None => None                     (* KeyError: no option and no default *)
+                end
+    end
+  | SCtxAdapter f opts s' =>
+    match ctx_key c f with
+    | None => None
+    | Some k => match ctx_pick k opts with
+                | Some None => ser e s' c v
+                | Some (Some a) => match aenc_s a v with Some v' => ser e s' c v' | None => None end
+                | None => None
+                end
+    end
+  | SFlagSwitch tbl ip cs =>
+    match v with
+    | VDict kvs =>
+      match flag_or tbl (map (fun kv => VName (fst kv)) kvs) with
+      | Some z =>
+        match enc_int e ip z,
+              ser_choices (map (fun c' => (fst (fst c'), ser e (snd c') c)) cs) kvs with
+        | Some h, Some r => Some (h ++ r)
+        | _, _ => None
+        end
+      | None => None
+      end
+    | _ => None
+    end
   end.
 
 (* ---------- deserialize ---------- *)
@@ -727,6 +805,39 @@ Fixpoint de (e pod : bool) (s : spec) (c : ctx) (b : bytes) {struct s} : dres :=
     | None => None
     | Some z => if Z.eqb (Z.land z mask) 0 then Some (VNone, b) else de e pod s' c b
     end
+  | SCtxSwitch f cs =>
+    match ctx_key c f with
+    | None => None
+    | Some k => match ctx_pick k (map (fun cs' => (fst cs', de e pod (snd cs') c)) cs) with
+                | Some g => g b
+                | None => None
+                end
+    end
+  | SCtxAdapter f opts s' =>
+    match ctx_key c f with
+    | None => None
+    | Some k => match ctx_pick k opts with
+                | Some oa =>
+                  match de e pod s' c b with
+                  | Some (v', r) =>
+                    match oa with
+                    | None => Some (v', r)
+                    | Some a => match adec_s a pod v' with Some v => Some (v, r) | None => None end
+                    end
+                  | None => None
+                  end
+                | None => None
+                end
+    end
+  | SFlagSwitch tbl ip cs =>
+    match dec_int e ip b with
+    | None => None
+    | Some (z, r) =>
+      match de_choices (map (fun c' => (fst (fst c'), snd (fst c'), de e pod (snd c') c)) cs) z r with
+      | Some (kvs, r') => Some (VDict kvs, r')
+      | None => None
+      end
+    end
   end.
 
 (* ---------- static information ---------- *)
@@ -746,7 +857,7 @@ Fixpoint calc_size (s : spec) : option N :=
   | SUUID => Some 16
   | STuple ss => sum_sizes (map calc_size ss)
   | STemplate fs _ rc => if rc then None else sum_sizes (map (fun f => calc_size (snd f)) fs)
-  | SAdapter _ s' => calc_size s'
+  | SAdapter _ s' | SCtxAdapter _ _ s' => calc_size s'
   | _ => None
   end.
 
@@ -760,7 +871,7 @@ Fixpoint exact_size (s : spec) : option N :=
   | SNull => Some 0
   | STuple ss => sum_sizes (map exact_size ss)
   | STemplate fs _ _ => sum_sizes (map (fun f => exact_size (snd f)) fs)
-  | SAdapter _ s' => exact_size s'
+  | SAdapter _ s' | SCtxAdapter _ _ s' => exact_size s'
   | _ => None
   end.
 
@@ -783,8 +894,9 @@ Fixpoint min_size (s : spec) : N :=
   | SAdapter _ s' => min_size s'
   | STypedBytes k _ _ _ =>
     match k with TBArray ip => wN (ip_width ip) | TBFixed n => n | _ => 0 end
-  | SIfPresent _ | SLengthSwitch _ | SOptFlagged _ _ _ _ => 0
-  | SEnumSwitch _ _ ip _ => wN (ip_width ip)
+  | SIfPresent _ | SLengthSwitch _ | SOptFlagged _ _ _ _ | SCtxSwitch _ _ => 0
+  | SEnumSwitch _ _ ip _ | SFlagSwitch _ ip _ => wN (ip_width ip)
+  | SCtxAdapter _ _ s' => min_size s'
   end.
 
 (* self-delimiting (true) or consuming the rest of its window (false) *)
@@ -795,7 +907,9 @@ Fixpoint delimited (s : spec) : bool :=
   | STuple ss => forallb delimited ss
   | STemplate fs _ _ => forallb (fun f => delimited (snd f)) fs
   | SCollection k _ => match k with LPrefixed _ => true | LFixed n => negb (n =? 0) | LGreedy => false end
-  | SOptPrefixed s' | SAdapter _ s' | SOptFlagged _ _ _ s' => delimited s'
+  | SOptPrefixed s' | SAdapter _ s' | SOptFlagged _ _ _ s' | SCtxAdapter _ _ s' => delimited s'
+  | SCtxSwitch _ cs => forallb (fun c => delimited (snd c)) cs
+  | SFlagSwitch _ _ cs => forallb (fun c => delimited (snd c)) cs
   | STypedBytes k _ en _ =>
     match k with TBGreedy => false | TBTerm _ sk => negb (en && sk) | _ => true end
   | SIfPresent _ | SLengthSwitch _ => false
@@ -829,6 +943,9 @@ Definition awf (a : adapter) : bool :=
 Fixpoint refs (s : spec) : list N :=
   match s with
   | SOptFlagged f _ _ s' => f :: refs s'
+  | SCtxAdapter f _ s' => f :: refs s'
+  | SCtxSwitch f cs => f :: flat_map (fun c => refs (snd c)) cs
+  | SFlagSwitch _ _ cs => flat_map (fun c => refs (snd c)) cs
   | SOptPrefixed s' | SAdapter _ s' | STypedBytes _ s' _ _ | SIfPresent s' => refs s'
   | SLengthSwitch cs => flat_map (fun c => refs (snd c)) cs
   | SEnumSwitch _ _ _ cs => flat_map (fun c => refs (snd c)) cs
@@ -868,6 +985,11 @@ Fixpoint wf (s : spec) : bool :=
   | SEnumSwitch _ _ _ cs => forallb (fun c => wf (snd c)) cs
   | SLengthSwitch cs => forallb (fun c => wf (snd c)) cs
   | SOptFlagged _ _ _ s' => wf s'
+  | SCtxAdapter _ _ s' => wf s'
+  | SCtxSwitch _ cs => forallb (fun c => wf (snd c)) cs
+  | SFlagSwitch _ _ cs =>
+    forallb (fun c => wf (snd c)) cs && butlast_all (map (fun c => delimited (snd c)) cs)
+    && nodupN (map (fun c => fst (fst c)) cs)
   | _ => true
   end.
 
@@ -962,6 +1084,18 @@ Definition adomb (a : adapter) (pod : bool) (D : value -> bool) (v : value) : bo
     end
   end.
 
+(* FlagSwitch: the dict has exactly the choices selected by the flags int, in choice order *)
+Fixpoint fsdomb (cs : list (N * Z * (value -> bool))) (z : Z) (kvs : list (N * value)) : bool :=
+  match cs with
+  | [] => is_nil kvs
+  | (n, cz, D) :: cs' =>
+    if Z.eqb (Z.land z cz) 0 then fsdomb cs' z kvs
+    else match kvs with
+         | (n', x) :: kvs' => N.eqb n n' && D x && fsdomb cs' z kvs'
+         | [] => false
+         end
+  end.
+
 Definition int_domb (ip : iprim) (v : value) : bool :=
   match v with VInt z => (ip_min ip <=? z)%Z && (z <=? ip_max ip)%Z | _ => false end.
 
@@ -1053,5 +1187,33 @@ Fixpoint domb (e pod : bool) (s : spec) (c : ctx) (v : value) {struct s} : bool 
     match ctx_flag c f ftbl with
     | Some z => if Z.eqb (Z.land z mask) 0 then is_none v else domb e pod s' c v
     | None => false
+    end
+  | SCtxSwitch f cs =>
+    match ctx_key c f with
+    | Some k => match ctx_pick k (map (fun c' => (fst c', domb e pod (snd c') c)) cs) with
+                | Some D => D v
+                | None => false
+                end
+    | None => false
+    end
+  | SCtxAdapter f opts s' =>
+    match ctx_key c f with
+    | Some k => match ctx_pick k opts with
+                | Some None => domb e pod s' c v
+                | Some (Some a) => adomb_s a pod (domb e pod s' c) v
+                | None => false
+                end
+    | None => false
+    end
+  | SFlagSwitch tbl ip cs =>
+    match v with
+    | VDict kvs =>
+      match flag_or tbl (map (fun kv => VName (fst kv)) kvs) with
+      | Some z =>
+        int_domb ip (VInt z) &&
+        fsdomb (map (fun c' => (fst (fst c'), snd (fst c'), domb e pod (snd c') c)) cs) z kvs
+      | None => false
+      end
+    | _ => false
     end
   end.
